@@ -3,17 +3,18 @@ import Yomm2.Model.Hash
 /-!
 # Obligations on the constants re-extracted from /repo on every run
 
-The model hard-codes what the C++ hard-codes (four passes, `N * 5 / 4`, 16 reported types, the
-512-element split, the stop / index bits). These lemmas fail to check when the source changes.
+The model hard-codes the layout constants of the C++ (16 reported types, the stop / index bits of the
+16-bit codes): the lemmas on those fail to check when the source changes.
 -/
 namespace Yomm2.Generated
 
-theorem hashPasses_is_model : hashPasses = 4 := by decide
-theorem hashGrow_is_model : hashGrowNum = 5 ∧ hashGrowDen = 4 := by decide
-theorem hashBudget_is_model : hashBudget = 100000 := by decide
+/-! The model *follows* these constants (number of passes, growth factor of the first table, attempt
+budget, size of the aggregate split): tuning them in the source changes the model with it, and the
+theorems hold for every value. What the theorems need is checked here. -/
+theorem hashGrow_sane : 0 < hashGrowDen := by decide
+theorem hashPasses_fit_the_word : hashPasses ≤ 8 := by decide
 theorem maxTypes_is_model : maxTypes = 16 := by decide
 theorem aggregateThreshold_pos : 0 < aggregateThreshold := by decide
-theorem aggregateThreshold_is_model : aggregateThreshold = 512 := by decide
 theorem bits_are_model : stopBit = 32768 ∧ indexBit = 16384 := by decide
 theorem bits_disjoint : indexBit < stopBit ∧ stopBit < 2 ^ 16 := by decide
 
